@@ -194,4 +194,13 @@ PROPS = {
         "what": "per response: status, Content-Type as it was when the status line was sent, body faithful (decodes to the value and equals the standard encoder's output / verbatim), number of writes; model vs implementation.",
         "assumes": ["values are encodable"],
     },
+    "C05": {
+        "n_quick": 120, "n_thorough": 3000, "go_build_flags": "-race", "search_rounds": 2,
+        "technique": "Coq proof of isolation over every interleaving (invariant by induction on the schedule) for the shared-state discipline; executable support: serial vs concurrent differential run under the Go race detector",
+        "level_text": "proof (partial): C05_isolation - for any number of requests and every interleaving of their atomic steps, each request's private state is what it would be served alone and once-cells only go None -> canonical; the Go memory model is outside the model: data races (unsynchronised writes, slice aliasing, a map written while serving) are looked for on the implementation, by serving 16-47 mixed requests per case serially on one instance and from 8 goroutines released together on an identically built fresh instance (lazily rendered strings first touched concurrently), harness built with -race; responses must be equal and the detector silent",
+        "level_note": "trusts Coq kernel, extraction, glue; the theorem is about the discipline (immutable configuration + sync.Once cells + per-request private state), not about Go's memory model; the race detector only sees the executions that happen",
+        "rule": "2-7 accepted registrations from the router pool (static, regex, match-all, optional, header-constrained, Any), a named route used for URL building inside handlers, request-scoped Map of a per-request token read back by a later handler, an application-scope service resolved through an interface; 16-47 requests per case. Non-trivial: >= 16 requests served concurrently; distinct by input.",
+        "what": "serial answers vs router model and priority spec; concurrent answers = serial answers; race detector reports turned into the replay.",
+        "assumes": ["set-up has finished before serving starts"],
+    },
 }
